@@ -191,3 +191,33 @@ def heap_fields(src):
                     created.add("%s.%s" % (qual, n.attr))
     out.append(("census.heap_fields.no_late_attributes", not created, "attributes set outside constructors: %s" % sorted(created)))
     return out
+
+
+def make_server_welcome(src):
+    """C17: the welcome dict is built from exactly the configured notices (motd iff given; current_cli_version
+    and error iff truthy) and is the one handed to Server, whose get_welcome returns it (contract)"""
+    fd = src.func("server.make_server")
+    found = {}
+    for n in ast.walk(fd):
+        if isinstance(n, ast.If) and len(n.body) >= 1:
+            for st in n.body:
+                if isinstance(st, ast.Assign) and isinstance(st.targets[0], ast.Subscript) \
+                        and ast.unparse(st.targets[0].value) == "welcome":
+                    found[ast.unparse(st.targets[0].slice)] = (ast.unparse(n.test), ast.unparse(st.value))
+    want = {"'motd'": ("welcome_motd is not None", "str(welcome_motd)"),
+            "'current_cli_version'": ("advertise_version", "advertise_version"),
+            "'error'": ("signal_error", "signal_error")}
+    out = [("census.make_server.welcome_keys", found == want, "found %s" % found)]
+    other = [ast.unparse(n) for n in ast.walk(fd) if isinstance(n, ast.Assign) and isinstance(n.targets[0], ast.Subscript)
+             and ast.unparse(n.targets[0].value) == "welcome" and ast.unparse(n.targets[0].slice) not in want]
+    out.append(("census.make_server.no_other_keys", not other, str(other)))
+    calls = [n for n in ast.walk(fd) if isinstance(n, ast.Call) and ast.unparse(n.func) == "Server"]
+    kw = {k.arg: ast.unparse(k.value) for k in calls[0].keywords} if len(calls) == 1 else {}
+    out.append(("census.make_server.passes_welcome", kw.get("welcome") == "welcome" and kw.get("blur_usage") == "blur_usage"
+                and kw.get("usage_db") == "usage_db" and kw.get("allow_list") == "allow_list", str(kw)))
+    init = src.func("server.Server.__init__")
+    assigns = {ast.unparse(n.targets[0]): ast.unparse(n.value) for n in ast.walk(init) if isinstance(n, ast.Assign)}
+    ok = all(assigns.get("self._" + k) == k for k in ("db", "allow_list", "welcome", "blur_usage", "usage_db")) \
+        and assigns.get("self._apps") == "{}" and assigns.get("self._log_requests") == "blur_usage is None"
+    out.append(("census.Server_init.wiring", ok, str(assigns)))
+    return out
